@@ -150,6 +150,7 @@ func runC18(c *core.Ctx, o Options) {
 			})
 		}
 	}
+	c.RuleMin = map[string]int{"needle": 10, "raw": 4}
 	c.MinObl = 16
 }
 
